@@ -118,7 +118,9 @@ def equity_sessions(rng, tier):
             sc.update({'digest': False, 'entry_every': rng.choice([5, 7, 11]), 'liquidate_every': 0, 'offs': rng.choice([[0], [-1, 0, 1]]), 'qty': rng.choice([0.5, 1.0])})
             if k % 2 == 0:
                 # market entries on almost every trading candle, quick exits: some entry falls on the candle that closes a day
-                sc.update({'entry_every': 2, 'offs': [0], 'points': 1, 'exit_style': 'on_open', 'sl_dist': 2, 'tp_dist': 2, 'cancel_entry': 'always', 'side': 'long'})
+                # (entry at market when flat, liquidate() at market on the next candle: a MARKET order is submitted on every trading candle, also the day's last)
+                sc.update({'entry_every': 1, 'liquidate_every': 1, 'offs': [0], 'points': 1, 'exit_style': 'none', 'cancel_entry': 'always', 'side': 'long',
+                           'max_submissions': 20000})
             if typ == 'spot': sc['side'] = 'long'
             scripts[s] = sc
         samples = []
@@ -157,7 +159,8 @@ def equity_sessions(rng, tier):
                     tally['base'][self_.symbol] = tally['base'].get(self_.symbol, 0.0) - q_
         Order.execute = exec_tally
         try:
-            out = E.run_session(cs, [(s, rng.choice(['5m', '15m'])) for s in syms], scripts=scripts, exchange_type=typ, fee=fee_rate,
+            # a 1m route: the strategy also runs on the minute that closes a day, where the equity sample is taken
+            out = E.run_session(cs, [(s, '1m' if k % 2 == 0 else rng.choice(['5m', '15m'])) for s in syms], scripts=scripts, exchange_type=typ, fee=fee_rate,
                                 leverage=2, balance=10000.0, fast=(k % 3 == 2))
         finally:
             bm.save_daily_portfolio_balance = orig
